@@ -461,7 +461,26 @@ func (i *interpreter) iteValue(g *Term, a, b value) (value, bool) {
 			return nil, false
 		}
 		return iface{x.t, v}, true
+	case symNat:
+		switch y := b.(type) {
+		case symNat:
+			return symNat{i.tt.Ite(g, x.T, y.T)}, true
+		case []value:
+			cv, ok := i.natConst(y)
+			if !ok {
+				return nil, false
+			}
+			return symNat{i.tt.Ite(g, x.T, cv)}, true
+		}
+		return nil, false
 	case []value:
+		if yn, ok := b.(symNat); ok {
+			cv, ok := i.natConst(x)
+			if !ok {
+				return nil, false
+			}
+			return symNat{i.tt.Ite(g, cv, yn.T)}, true
+		}
 		y, ok := b.([]value)
 		if !ok {
 			return nil, false
@@ -494,4 +513,26 @@ func scalarOf(v value) (types.BasicKind, uint64, bool) {
 		return s.K, 0, true
 	}
 	return concreteKind(v)
+}
+
+// natConst converts a concrete math/big nat ([]Word) to a W-bit constant.
+func (i *interpreter) natConst(a []value) (*Term, bool) {
+	words := make([]uint64, len(a))
+	for k, w := range a {
+		switch x := w.(type) {
+		case uint:
+			words[k] = uint64(x)
+		case uint64:
+			words[k] = x
+		default:
+			return nil, false
+		}
+	}
+	W := i.bigW()
+	for k := (W + 63) / 64; k < len(words); k++ {
+		if words[k] != 0 {
+			return nil, false
+		}
+	}
+	return i.wideConst(words, W), true
 }
